@@ -85,6 +85,8 @@ func stressMkQuery0(r *gen.R, o *stressOpts, ups []string, worker, seq int) *str
 		kind = "rc9"
 	case x == 3 && up == "udp" && r.P(0.3):
 		kind = "half" // the datagram is cut in the middle while its header still announces every record
+	case x <= 6 && up == "udpx":
+		kind = "tc" // truncated over UDP, and nothing accepts the TCP retry: the exchange fails
 	case x == 4 && r.P(0.5):
 		kind = "rd0" // RD=0: not supported, answered NOTIMP from the query message itself
 	}
@@ -164,6 +166,10 @@ func runStress(c *Ctx, o stressOpts) *stressResult {
 			return
 		}
 		switch sq.kind {
+		case "tc":
+			// only reachable with a response that is not SERVFAIL
+			viol("answer-after-failed-tcp-retry:"+listener, fmt.Sprintf("%s: the UDP reply to %s was truncated and the upstream's TCP side refuses connections, yet a response with rcode %d, tc=%v and %d answer records was returned", listener, sq.q.Name, m.Rcode, m.Truncated, len(m.Answer)), cs)
+			return
 		case "rd0":
 			if m.Rcode != dns.RcodeNotImplemented || len(m.Answer)+len(m.Ns)+len(noOpt(m.Extra)) != 0 {
 				viol("mixed-up-answer:"+listener, fmt.Sprintf("%s: NOTIMP without records expected for a query with RD=0, got rcode %d with %d/%d/%d records", listener, m.Rcode, len(m.Answer), len(m.Ns), len(m.Extra)), cs)
